@@ -818,6 +818,7 @@ static std::string run_case(const std::string& line) {
   if (c.T->completed_bits() != sc.have) { S.remove(c.T); return "ERR:hashcheck " + c.T->completed_bits(); }
   S.start(c.T);
   c.completed = c.T->completed_bits();
+  c.ev.push_back("A:maxpex:" + std::to_string(c.T->main()->info()->max_size_pex()));   // tuning constant, probed
   for (int i = 0; i < sc.npeers; i++) {
     auto p = std::make_unique<SPeer>();
     p->id = i;
